@@ -240,12 +240,8 @@ def thread_mutex(ck, mod, tier, parsed, found):
     if bad: found.append(('thread mutex', bad, {}))
 
 def agg(ck, name, queries, TO, found, tag):
-    if not queries: return
-    out = smt.parallel_check([(i, list(a) + list(g)) for i, (a, g) in enumerate(queries)], timeout_s=TO)
-    bad = [i for i in out if out[i][0] != 'unsat']
-    st = 'unsat' if not bad else ('sat' if any(out[i][0] == 'sat' for i in bad) else 'unknown')
-    ck.obligation('%s (%d path queries)' % (name, len(queries)), st, sum(v[1] for v in out.values()), True, {'model': out[bad[0]][2]} if bad else None)
-    if st == 'sat': found.append((tag, name, out[[i for i in bad if out[i][0] == 'sat'][0]][2]))
+    st, mdl = smt.agg_core(ck, name, queries, TO)
+    if st == 'sat': found.append((tag, name, mdl))
 
 def check_c10(ck, tier, replay=None):
     if replay: return do_replay(replay)
